@@ -56,11 +56,16 @@ def gen(seed, tier):
             payloads.append({"id": "xq%d" % j, "flavour": rng.choice([ofl, ofl, "threading"]), "via": "execute", "steps": [["sleep", rng.choice([0.05, 0.2, 0.5])], ["return", "none"]], "cleanup_sync": 1})
             steps += [["execute", "xq%d" % j], ["sleep", rng.choice([0.0, 0.05])]]
         payloads.append({"id": "execer", "flavour": cfl, "via": "queued", "steps": steps + [["block"]], "cleanup_sync": 1})
+    if rng.random() < 0.1:
+        # a worker that re-adopts itself whenever it goes down: during a termination the successor is
+        # discarded (or cancelled in turn) - the run call still ends
+        rfl = rng.choice(["asyncio", "asyncio", "trio"])
+        payloads.append({"id": "resp", "flavour": rfl, "via": "queued", "steps": [["block"]], "cleanup_sync": 1, "cleanup_adopt": "resp"})
     for op in late:
         dscript += [["sleep", rng.choice([0.0, 0.0, 0.05, 0.3])], op]
     if rng.random() < 0.3:
         dscript += [["gc"]]
-    trig = rng.choice(["fail-asyncio", "fail-trio", "fail-threading", "sigint", "stop", "shutdown", "shutdown-thread-payload", "ki-asyncio", "ki-threading", "fail-two"])
+    trig = rng.choice(["fail-asyncio", "fail-trio", "fail-threading", "sigint", "stop", "shutdown", "shutdown-thread-payload", "ki-asyncio", "ki-threading", "fail-two", "exit-asyncio", "exit-threading", "exit-trio"])
     t = rng.choice([0.0, 0.0, 0.01, 0.2, 0.5, 1.0, 1.3])
     just_started = [p["id"] for p in payloads if p.get("via") in ("adopt", "service") and p["flavour"] != "threading"]
     if just_started and rng.random() < 0.5:
@@ -76,6 +81,10 @@ def gen(seed, tier):
         payloads.append({"id": "trig", "flavour": a, "via": "adopt", "steps": [["sleep", 0.1], ["raise", "KeyError"]], "trigger": True})
         payloads.append({"id": "trig2", "flavour": b, "via": "adopt", "steps": [["sleep", 0.1], ["return", "str"]], "trigger": True})
         dscript += [["adopt", "trig"], ["adopt", "trig2"]]
+    elif trig.startswith("exit-"):
+        # a payload that calls sys.exit(): a failure like any other as far as the other payloads are concerned
+        payloads.append({"id": "trig", "flavour": trig[5:], "via": "adopt", "steps": [["raise", "SystemExit"]], "trigger": True})
+        dscript.append(["adopt", "trig"])
     elif trig.startswith("ki-"):
         payloads.append({"id": "trig", "flavour": trig[3:], "via": "adopt", "steps": [["raise", "KeyboardInterrupt"]], "trigger": True})
         dscript.append(["adopt", "trig"])
